@@ -52,6 +52,22 @@ def step (_ : Unit) (fields : List String) (impl : String) : Unit × Reply :=
                 decide (p ≤ ticks + 1) && decide (ticks ≤ p + 2 + ticks / 3)
       ((), ⟨"accepted-by-model=" ++ boolStr ok, ok, true, ok, "-"⟩)
     | _, _ => ((), .bad)
+  | ["lives", i, n] =>
+    -- several sessions of ONE client (Connect, six keepalive periods, Disconnect, Connect again ...): every session
+    -- has its keepalives - at least two after six periods, at most one per period of the time the session was up (+2)
+    match i.toNat?, n.toNat? with
+    | some i, some n =>
+      let m := kvs impl
+      let ok := i > 0 && n > 0 && nat m "lives" == n &&
+        (List.range n).all fun k =>
+          match m.lookup ("p" ++ toString (k + 1)) with
+          | some v => (match v.toNat? with
+              -- t<k>: how long the session was up (ms), measured by the harness: at most one keepalive per period
+              | some p => decide (2 ≤ p) && decide (p ≤ nat m ("t" ++ toString (k + 1)) / i + 2)
+              | none => false)
+          | none => false
+      ((), ⟨"accepted-by-model=" ++ boolStr ok, ok, true, ok, "-"⟩)
+    | _, _ => ((), .bad)
   | ["hookfail", i] =>
     -- Resume fails in the application's post-resume hook: the error is returned and no keepalive is left running
     match i.toNat? with
